@@ -238,6 +238,10 @@ def c17(c):
                         ev = log.run(cff, root, pkg, mode, extra)
                         if ev["rc"] != 0:
                             break
+                    # regeneration over what an earlier run left / over an older, longer or shorter output
+                    if ev["rc"] == 0:
+                        for st in ("same", "longer", "shorter"):
+                            log.run(cff, root, pkg, mode, extra, stale=st)
                     files = G.src_files(root, pkg)
                     pick = rng.sample(files, min(len(files), 10 if c.quick else 40))
                     for f in pick:
